@@ -265,7 +265,7 @@ func shapeClass(shape string) string {
 }
 
 func checkC01(c *Ctx) {
-	c.rule = "programs 输出‹expr›: (a) every binary operator x every ordered pair of a 44-value boundary pool passed as input variables; (b) every unbraced triple a op1 b op2 c over the 16 operators x operand classes, rendered without braces from its natural (manual precedence) tree; (d) 为 / == / 不为 / /= between container literals (lists and dictionaries nested to depth 2 over 空, numbers, texts, booleans) and a variant with one leaf changed, an entry dropped / added, keys reordered or renamed; (c) random trees (literals in every documented numeric spelling with math/big values, variables, probes that display their evaluation order), braces only where the manual's precedence requires them. Oracle: independent reference evaluator (IEEE doubles, floor division, a-floor(a/b)*b, structural equality, short circuit). distinct_nontrivial = distinct (family, expression shape incl. operators, expected outcome kind) among cases the reference specifies"
+	c.rule = "programs 输出‹expr›: (a) every binary operator x every ordered pair of a 44-value boundary pool passed as input variables; (b) every unbraced triple a op1 b op2 c over the 16 operators x operand classes, rendered without braces from its natural (manual precedence) tree; (e) operands that update a variable in place (自增 / 自减) next to operands that read it; (d) 为 / == / 不为 / /= between container literals (lists and dictionaries nested to depth 2 over 空, numbers, texts, booleans) and a variant with one leaf changed, an entry dropped / added, keys reordered or renamed; (c) random trees (literals in every documented numeric spelling with math/big values, variables, probes that display their evaluation order), braces only where the manual's precedence requires them. Oracle: independent reference evaluator (IEEE doubles, floor division, a-floor(a/b)*b, structural equality, short circuit). distinct_nontrivial = distinct (family, expression shape incl. operators, expected outcome kind) among cases the reference specifies"
 	c.assumptions = []string{"reference evaluator znref implements the manual/property semantics; cases it marks unspecified are skipped and counted", "doubles compared bit-wise (NaN==NaN, +0 != -0)"}
 	rng := c.Rand("c01")
 	var progs []*zr.Program
@@ -387,6 +387,25 @@ func checkC01(c *Ctx) {
 			body = []zr.Stmt{zr.LetS("甲", a), zr.LetS("乙", b), zr.Return{E: zr.Bin{Op: op, L: zr.N("甲"), R: zr.N("乙")}}}
 		}
 		add(&zr.Program{Body: body}, nil, "containers/"+op+"/"+how+"/"+exprShape(a))
+	}
+	// (e) an operand that changes a variable in place while the other operand reads the same
+	// variable: operands are evaluated once, left to right, and an operand's value is the value
+	// at the time it was evaluated
+	for _, op := range []string{"+", "-", "*", "/", "|", "%", "==", ">", "<=", "为"} {
+		for _, m := range []string{"自增", "自减"} {
+			for k := 1; k <= 3; k++ {
+				inc := zr.MCall{Recv: zr.N("数"), Chain: []zr.CallPart{{Fn: m, Args: []zr.Expr{intLit(k)}}}}
+				for vi, e := range []zr.Expr{
+					zr.Bin{Op: op, L: zr.N("数"), R: inc},
+					zr.Bin{Op: op, L: inc, R: zr.N("数")},
+					zr.Bin{Op: op, L: zr.Bin{Op: "+", L: zr.N("数"), R: intLit(0)}, R: inc},
+					zr.Bin{Op: op, L: zr.N("数"), R: zr.Bin{Op: "+", L: inc, R: zr.N("数")}},
+					zr.Bin{Op: op, L: zr.Bin{Op: "*", L: zr.N("数"), R: zr.N("数")}, R: zr.Bin{Op: "-", L: inc, R: inc}},
+				} {
+					add(&zr.Program{Body: []zr.Stmt{zr.LetS("数", intLit(5)), zr.Show(zr.S("r"), e), zr.Return{E: zr.N("数")}}}, nil, fmt.Sprintf("inplace/%s/%s/%d", op, m, vi))
+				}
+			}
+		}
 	}
 	c.runRefCases("expr", progs, inputs, shapes, nil, nil)
 }
